@@ -59,11 +59,11 @@ pub assume_specification [crate::iri::Iri::parts] (s: &crate::iri::Iri) -> (r: c
 
 // Path::is_absolute / segments / normalized_segments and the facade iterators wrapping SegmentsImpl / NormalizedSegmentsImpl
 // (both proved in common/: C12, C09). One ghost view for every iterator type: the texts of the items still to come.
+// NormalizedSegments (the one the comparison code uses): transparent (R27), `Path::normalized_segments` and `next` are PROVED
+// on twins (contracts/deleg.vspec); Segments (no consumer in the comparison code): contracts assumed.
 #[verifier::external_type_specification]
-#[verifier::external_body]
 pub struct ExUriNormalizedSegments<'a>(crate::uri::NormalizedSegments<'a>);
 #[verifier::external_type_specification]
-#[verifier::external_body]
 pub struct ExIriNormalizedSegments<'a>(crate::iri::NormalizedSegments<'a>);
 #[verifier::external_type_specification]
 #[verifier::external_body]
@@ -73,26 +73,14 @@ pub struct ExUriSegments<'a>(crate::uri::Segments<'a>);
 pub struct ExIriSegments<'a>(crate::iri::Segments<'a>);
 /// texts of the items an iterator still has to yield (uninterpreted; pinned by the contracts of the constructors and of next)
 pub uninterp spec fn it_texts<I>(it: &I) -> Seq<Seq<u8>>;
-pub assume_specification<'a> [crate::uri::Path::normalized_segments] (p: &'a crate::uri::Path) -> (r: crate::uri::NormalizedSegments<'a>)
-    ensures path_shape(bytes_of(p)) ==> it_texts(&r) == norm_segs(bytes_of(p));
 pub assume_specification<'a> [crate::uri::Path::segments] (p: &'a crate::uri::Path) -> (r: crate::uri::Segments<'a>)
     ensures path_shape(bytes_of(p)) ==> it_texts(&r) == segs(bytes_of(p));
-pub assume_specification<'a> [<crate::uri::NormalizedSegments<'a> as Iterator>::next] (it: &mut crate::uri::NormalizedSegments<'a>) -> (r: Option<&'a crate::uri::Segment>)
-    ensures
-        it_texts(old(it)).len() > 0 ==> r is Some && bytes_of(r.unwrap()) == it_texts(old(it))[0] && it_texts(final(it)) == it_texts(old(it)).drop_first(),
-        it_texts(old(it)).len() == 0 ==> r is None && it_texts(final(it)) == it_texts(old(it));
 pub assume_specification<'a> [<crate::uri::Segments<'a> as Iterator>::next] (it: &mut crate::uri::Segments<'a>) -> (r: Option<<crate::uri::Segments<'a> as Iterator>::Item>)
     ensures
         it_texts(old(it)).len() > 0 ==> r is Some && bytes_of(r.unwrap()) == it_texts(old(it))[0] && it_texts(final(it)) == it_texts(old(it)).drop_first(),
         it_texts(old(it)).len() == 0 ==> r is None && it_texts(final(it)) == it_texts(old(it));
-pub assume_specification<'a> [crate::iri::Path::normalized_segments] (p: &'a crate::iri::Path) -> (r: crate::iri::NormalizedSegments<'a>)
-    ensures path_shape(bytes_of(p)) ==> it_texts(&r) == norm_segs(bytes_of(p));
 pub assume_specification<'a> [crate::iri::Path::segments] (p: &'a crate::iri::Path) -> (r: crate::iri::Segments<'a>)
     ensures path_shape(bytes_of(p)) ==> it_texts(&r) == segs(bytes_of(p));
-pub assume_specification<'a> [<crate::iri::NormalizedSegments<'a> as Iterator>::next] (it: &mut crate::iri::NormalizedSegments<'a>) -> (r: Option<&'a crate::iri::Segment>)
-    ensures
-        it_texts(old(it)).len() > 0 ==> r is Some && bytes_of(r.unwrap()) == it_texts(old(it))[0] && it_texts(final(it)) == it_texts(old(it)).drop_first(),
-        it_texts(old(it)).len() == 0 ==> r is None && it_texts(final(it)) == it_texts(old(it));
 pub assume_specification<'a> [<crate::iri::Segments<'a> as Iterator>::next] (it: &mut crate::iri::Segments<'a>) -> (r: Option<<crate::iri::Segments<'a> as Iterator>::Item>)
     ensures
         it_texts(old(it)).len() > 0 ==> r is Some && bytes_of(r.unwrap()) == it_texts(old(it))[0] && it_texts(final(it)) == it_texts(old(it)).drop_first(),
